@@ -425,6 +425,18 @@ func (c *RefClient) event(name string, data json.RawMessage) {
 		return
 	}
 	rid, ev := name[:i], name[i+1:]
+	if _, ok := c.Store[rid]; !ok {
+		// event names may contain dots: prefer the longest held rid that prefixes the name
+		best := ""
+		for k := range c.Store {
+			if strings.HasPrefix(name, k+".") && len(k) > len(best) {
+				best = k
+			}
+		}
+		if best != "" {
+			rid, ev = best, name[len(best)+1:]
+		}
+	}
 	res := c.Store[rid]
 	ce := ClientEvent{RID: rid, Event: ev, Data: data, Frame: c.nframes, At: c.curAt, Held: res != nil}
 	var sq struct {
